@@ -118,3 +118,30 @@ def consistent_orders(dcol, limit=24):
     if total > limit:
         return None
     return [[u for grp in combo for u in grp] for combo in product(*per)]
+
+
+def gen_req(which, scalar, labels, dist, util, nulls, orders):
+    """request for the TRANSLATED kernel (lean/Gen via gendriver): arrays row-major, argsort results per validation point"""
+    n, m = labels.shape
+    enc = bits if scalar == "float" else frs
+    return {"which": which, "scalar": scalar, "n": n, "m": m, "c": int(util.shape[0]), "L": labels.tolist(),
+            "D": [[enc(dist[i, j]) for j in range(m)] for i in range(n)], "U": [[enc(util[k, j]) for j in range(m)] for k in range(util.shape[0])],
+            "nulls": [enc(x) for x in nulls], "orders": orders}
+
+
+def check_translated(ctx, which, out, labels, dist, util, nulls, orders, case, bound, stats):
+    """the translated source (regenerated from the repository this run) against the implementation it was translated from:
+    Float instance bit for bit (recorded) and within the proved rounding bound (required); Rat instance against the hand-written model (exact)."""
+    if ctx.gendriver is None or orders is None:
+        return
+    ans = ctx.gen(gen_req(which, "float", labels, dist, util, nulls, orders))
+    if ans is None or "ok" not in ans:
+        ctx.mismatch("translated kernel %s could not be run" % which, case, model=ans, failing_input=False, broken="corr:Gen.compute_all_importances%s" % ("_cy" if which == "cy" else ""))
+        return
+    got = [struct.unpack("<d", struct.pack("<Q", b))[0] for b in ans["ok"]]
+    stats["total"] = stats.get("total", 0) + 1
+    if ans["ok"] == [bits(x) for x in out.tolist()]:
+        stats["same"] = stats.get("same", 0) + 1
+    if len(got) != len(out) or any(not abs(a - b) <= bound for a, b in zip(got, out.tolist())):
+        ctx.mismatch("the kernel translated from the source (harness/translate.py -> lean/Gen) does not reproduce the implementation %s: translator or Ds/Np.lean misrepresent the code" % which,
+                     case, impl=out.tolist()[:8], model=got[:8], failing_input=False, broken="corr:Gen.compute_all_importances%s (translator / Ds.Np)" % ("_cy" if which == "cy" else ""))
